@@ -26,14 +26,14 @@ example : diffRows [(1, [.int 1]), (2, [.null]), (4, [.str "x"])] [(1, [.int 1])
     = [⟨2, .modified, some [.null], some [.int 0]⟩, ⟨3, .added, none, some [.null]⟩, ⟨4, .removed, some [.str "x"], none⟩] := by
   decide
 
-/-- With a changed column list a row counts as different iff it differs over the union of the two
-layouts (a column absent on one side reads NULL there): exactly those keys are listed, ascending,
-each with its two stored rows. -/
+/-- With a changed column list a row counts as different iff its *stored tuples* differ (cells compared
+positionally, trailing NULLs not stored — so a column added at the end changes nothing, a dropped
+column that is not last changes every row): exactly those keys are listed, ascending, each with its
+two stored rows. -/
 theorem diff_exact_schema (ft tt : Table) (hne : ft.cols ≠ tt.cols) :
     Sorted ltInt ((diffTables (some ft) (some tt)).map (·.pk)) ∧
     (∀ k, (∃ d ∈ diffTables (some ft) (some tt), d.pk = k) ↔
-      ((get ft.rows k).map (projRow ft.cols (unionCols ft.cols tt.cols)) ≠
-        (get tt.rows k).map (projRow tt.cols (unionCols ft.cols tt.cols)))) ∧
+      ((get ft.rows k).map trimNulls ≠ (get tt.rows k).map trimNulls)) ∧
     (∀ d ∈ diffTables (some ft) (some tt), d.from = get ft.rows d.pk ∧ d.to = get tt.rows d.pk) :=
   ⟨diffTables_sorted ft tt hne, diffTables_mem ft tt hne, diffTables_values ft tt hne⟩
 
